@@ -14,7 +14,7 @@ import fs_common as F
 IMPORTS = "Base Codebase Exclude GenScan FsScan Cache"
 SUP = ("let supported := fun n : pystr => if pystr_eqb n %s then Some %s else if pystr_eqb n %s then Some %s "
        "else if pystr_eqb n %s then Some %s else if pystr_eqb n %s then Some %s else None in "
-       "let analyze := fun (l : pystr) (c : Z) => mkAnalysis l c (if c =? 0 then [] else [c]) in "
+       "let analyze := fun (l : pystr) (c : Z) => mkAnalysis l c (if c =? 0 then [] else if c =? 40 then [20; 20] else [c]) in "
        % (LC.pystr("a.py"), LC.pystr("Python"), LC.pystr("b.js"), LC.pystr("JavaScript"), LC.pystr("c.py"), LC.pystr("Python"),
           LC.pystr("e.ts"), LC.pystr("TypeScript")))
 
